@@ -339,3 +339,147 @@ def evaluated_pr(world, rec):
         if len(cands) == 1:
             return cands[0]
     return None
+
+
+# ---------------------------------------------------------------------------
+def push_argv_problems(rec):
+    """forced pushes / deletions of names the robot does not own, from the
+    shim's argv log"""
+    out = []
+    for (n, op, cwd, argv) in rec['git']:
+        if op is None:
+            continue
+        words = argv.replace("'", ' ').split()
+        if words[:1] != ['push']:
+            continue
+        for wd in words[1:]:
+            if wd in ('--force', '-f', '--force-with-lease', '--mirror') or \
+                    wd.startswith('--force'):
+                out.append(('forced-push', argv))
+            elif wd.startswith('+'):
+                out.append(('forced-refspec', argv))
+            elif wd.startswith(':') and len(wd) > 1:
+                name = wd[1:].replace('refs/heads/', '')
+                if not oracle.robot_owned(name) and \
+                        rec['kind'] != 'delete_branch':
+                    out.append(('deletes-foreign-name', argv))
+            elif wd in ('--delete', '-d'):
+                out.append(('delete-flag', argv))
+    return out
+
+
+def c08_ownership(world, rec, acc, ctx, expected_foreign=None):
+    """Every destination update is a fast-forward; nothing outside w/ q/ tmp/
+    and the destinations changes or disappears (expected_foreign: values the
+    third party gave to refs during the job); a destination disappears only in
+    the delete-branch job with its archive tag on the old tip; no commit that
+    was ever a destination tip becomes unreachable; no forced push."""
+    b, a = rec['before'], rec['after']
+    acc.evals += 1
+    changed = {n for n in set(b.refs) | set(a.refs)
+               if b.refs.get(n) != a.refs.get(n)}
+    expected_foreign = expected_foreign or {}
+    touched = changed | set(expected_foreign)
+    if not touched and not rec['ops']:
+        acc.count('c08_jobs_without_remote_effect')
+        return
+    acc.count('c08_jobs_checked')
+    pushes = [o for o in rec['ops'] if o[1] == 'push']
+    forms = sorted({'all-prune' if '--all' in o[2] else
+                    'delete' if ' :' in o[2] else
+                    'tag' if 'push origin' in o[2] and
+                    '--set-upstream' not in o[2] else 'named'
+                    for o in pushes})
+    acc.nontrivial('%s|%s|%s|%s' % (rec['kind'], rec['status'],
+                                    ','.join(forms),
+                                    ctx.get('action', 'none')))
+    probs = []
+    for n in sorted(touched):
+        old, new = b.refs.get(n), a.refs.get(n)
+        if n in expected_foreign:
+            if new != expected_foreign[n]:
+                act = ctx.get('action', '?')
+                if act.startswith('create-'):
+                    mech = 'branch-created-during-job-%s' % (
+                        'deleted' if new is None else 'changed')
+                elif new == old:
+                    mech = 'source-branch-%s-during-job-restored-to-' \
+                        'stale-copy' % act.split('-')[0]
+                else:
+                    mech = 'source-branch-%s-during-job-clobbered' % \
+                        act.split('-')[0]
+                probs.append((
+                    mech,
+                    '%s was set to %s by somebody else during the job but '
+                    'is %s after it' % (n, (expected_foreign[n] or '-')[:10],
+                                        (new or 'deleted')[:10])))
+            continue
+        if oracle.robot_owned(n):
+            continue
+        if oracle.is_dest(n):
+            if old and new and not world.is_ancestor(old, new):
+                probs.append(('destination-not-fast-forwarded',
+                              '%s moved from %s to %s which does not contain '
+                              'it' % (n, old[:10], new[:10])))
+            if old and not new:
+                if rec['kind'] != 'delete_branch':
+                    probs.append(('destination-deleted-outside-delete-job',
+                                  '%s deleted by %s' % (n, rec['kind'])))
+                else:
+                    ver = oracle.version_of(n)
+                    tag = ver + ('.archived_hotfix_branch'
+                                 if n.startswith('hotfix/') else '')
+                    tsha = world.rev('refs/tags/%s^{commit}' % tag)
+                    if tsha != old:
+                        probs.append((
+                            'destination-deleted-without-archive-tag',
+                            '%s (%s) deleted, tag %s -> %s' % (
+                                n, old[:10], tag, tsha)))
+            continue
+        # source branches and anything else
+        if old and new != old:
+            probs.append(('foreign-branch-%s' % (
+                'deleted' if not new else 'updated'),
+                '%s: %s -> %s' % (n, old[:10], (new or 'deleted')[:10])))
+        elif not old and new:
+            probs.append(('foreign-branch-created',
+                          '%s created by the job' % n))
+    # reachability of every commit that was ever a destination tip
+    if changed:
+        for n, hist in world.tip_history.items():
+            if not oracle.is_dest(n):
+                continue
+            for sha in hist:
+                p = world.bgit('for-each-ref', '--contains', sha,
+                               '--count=1', '--format=%(refname)')
+                if not p.stdout.strip():
+                    probs.append(('former-destination-tip-unreachable',
+                                  '%s (%s) is reachable from no branch or '
+                                  'tag' % (sha[:10], n)))
+    for kind, argv in push_argv_problems(rec):
+        probs.append((kind, argv[:200]))
+    for mech, desc in probs:
+        acc.violation(mech, '%s(%s) -> %s: %s' % (
+            rec['kind'], rec['arg'], rec['status'], desc),
+            witness(world, rec, {'third_party': ctx.get('third_party')}))
+    if not probs and len(acc.samples) < 4:
+        acc.sample({'config': world.config(), 'job': rec_summary(rec),
+                    'third_party_action': ctx.get('third_party')})
+
+
+# ---------------------------------------------------------------------------
+def c10_no_adjacent_duplicates(world, rec, acc, ctx):
+    """Bert-E never posts the same message twice in a row on a PR."""
+    a = rec['after']
+    for pr_id, comments in a.comments.items():
+        n_before = len(rec['before'].comments.get(pr_id, []))
+        if len(comments) == n_before:
+            continue
+        acc.count('c10_comment_lists_checked')
+        for i in range(max(1, n_before), len(comments)):
+            (u1, t1), (u2, t2) = comments[i - 1], comments[i]
+            if u1 == ROBOT and u2 == ROBOT and t1 == t2:
+                acc.violation(
+                    'same-message-posted-twice-in-a-row',
+                    'PR #%d: robot comment %d repeats comment %d: %r'
+                    % (pr_id, i, i - 1, t1[:80]), witness(world, rec))
